@@ -95,3 +95,7 @@ package backend
 //@ func GetPtrFromString
 //@   frame none
 //@   ensures {C07} [empty-is-absent] (str == "" ==> ret0 == nil) && (str != "" ==> ret0 != nil && *ret0 == str)
+
+// ParseObjectTags builds a map from the tagging header; it writes nothing the caller can see
+//@ func ParseObjectTags
+//@   frame none
